@@ -106,6 +106,7 @@ type Cfg struct {
 	ResetOnEmpty    bool   `json:"reset_on_empty,omitempty"`    // engine.Config.ResetOnEmptyInput
 	FinishLate      bool   `json:"finish_late,omitempty"`       // Finish is called once, when an engine is retired (as engine.Loop's defer), not after every request
 	SessionViaStore bool   `json:"session_via_store,omitempty"` // with KeepPersister and SetSession: the session is selected on the store handle, not through the persister
+	Debug           bool   `json:"debug,omitempty"`             // every engine has the library's SimpleDebug attached (writing to nowhere)
 	KeepPersister   bool   `json:"keep_persister,omitempty"`    // every session keeps its own persist.Persister between requests and selects its session through it (Persister.WithSession) before each request
 	SharePersister  bool   `json:"share_persister,omitempty"`   // one persist.Persister (WithFlush) is reused for every engine of every session of the world
 }
@@ -521,6 +522,9 @@ func (s *Sess) build() error {
 		if s.W.Cfg.First {
 			s.Eng = s.Eng.WithFirst(s.firstFunc)
 		}
+		if s.W.Cfg.Debug {
+			s.Eng = s.Eng.WithDebug(engine.NewSimpleDebug(io.Discard))
+		}
 	} else {
 		s.St = state.NewState(s.W.Cfg.FlagCount)
 		s.Ca = cache.NewCache()
@@ -530,6 +534,9 @@ func (s *Sess) build() error {
 		s.Eng = engine.NewEngine(s.engineCfg(), s.resource()).WithState(s.St).WithMemory(s.Ca)
 		if s.W.Cfg.First {
 			s.Eng = s.Eng.WithFirst(s.firstFunc)
+		}
+		if s.W.Cfg.Debug {
+			s.Eng = s.Eng.WithDebug(engine.NewSimpleDebug(io.Discard))
 		}
 	}
 	return nil
